@@ -19,6 +19,7 @@ import c19_models as G
 
 FIXED = True          # the tree is expected to carry fixes/C19-interface-early-exit.diff
 FINDING = "C19-interface-early-exit"
+FINDING_READD = "C19-readded-units-lose-parent"
 
 
 def standard_names():
@@ -87,9 +88,37 @@ def parse_state(text):
         c = r.opt()
         p = r.opt()
         st["X"][tag] = (c, p)
+    st["others"] = []
+    st["classes"] = {}
+    if r.i < len(r.t):
+        r.expect("O")
+        for _ in range(int(r.next())):
+            mt = int(r.next())
+            st["others"].append((mt, [int(r.next()) for _ in range(int(r.next()))]))
+        r.expect("Q")
+        for _ in range(int(r.next())):
+            t = int(r.next())
+            st["classes"][t] = int(r.next())
     if r.i != len(r.t):
         raise ValueError("trailing tokens")
     return st
+
+
+def core(state_text):
+    """the part of a state the helpers can change (everything before the other models' lists)"""
+    return state_text.split(" O ")[0]
+
+
+def ownership_text(results, st):
+    """same projection as ocaml/iface/driver.ml pr_own: results | tag=owner ... | model=[list] ..."""
+    h = "".join(" %d=%s" % (t, "-" if st["heap"][t]["owner"] is None else st["heap"][t]["owner"]) for t in st["heap_order"])
+    ms = [(st["M"], st["L"])] + st["others"]
+    return "%s |%s |%s" % (results, h, "".join(" %d=[%s]" % (m, ",".join(map(str, l))) for m, l in ms))
+
+
+def history_of(script):
+    parts = script.split(";ops;")
+    return parts[1] if len(parts) > 1 else ""
 
 
 def occurrences(st):
@@ -395,8 +424,12 @@ def run_drivers(ctx, drv, mdl, scripts, tag):
             impl[i] = out[j] if j < len(out) and out[j] else "<missing>"
     mf = os.path.join(ctx.workdir, "%s.states" % tag)
     with open(mf, "w") as f:
-        for l in impl:
-            f.write((fields(l).get("S0", "") if l.startswith("S0 ") else "") + "\n")
+        for l, sc in zip(impl, scripts):
+            if l.startswith("P0 "):
+                fl = fields(l)
+                f.write("%s\t%s\t%s\n" % (fl.get("P0", ""), history_of(sc), fl.get("S0", "")))
+            else:
+                f.write("\n")
     # shard the model run as well
     msh = max(1, min(8, len(scripts) // 2000 + 1))
     lines = open(mf).read().split("\n")[:len(scripts)]
@@ -417,12 +450,12 @@ def run_drivers(ctx, drv, mdl, scripts, tag):
 
 
 def judge(impl_line, model_line, std):
-    """-> (problems, hidden_bad, matches_unfixed)"""
+    """-> (problems, hidden_bad, matches_unfixed, readd)"""
     problems = []
-    if not impl_line.startswith("S0 "):
-        return ["implementation: %s" % impl_line[:200]], False, False
+    if not impl_line.startswith("P0 "):
+        return ["implementation: %s" % impl_line[:200]], False, False, False
     if not model_line.startswith("FIX "):
-        return ["model driver: %s" % model_line[:200]], False, False
+        return ["model driver: %s" % model_line[:200]], False, False, False
     I = fields(impl_line)
     # the model line carries the result of the repaired loop first, then "UNFIXED FIX .. VAL .." for the pinned loop
     parts = model_line.split("\tUNFIXED ")
@@ -430,21 +463,33 @@ def judge(impl_line, model_line, std):
     munf = fields(parts[1]) if len(parts) > 1 else {}
     mref = mfixed if FIXED else dict(mfixed, FIX=munf.get("FIX"), VAL=munf.get("VAL"))
     hb = mfixed.get("HB") == "1"
+    val_skipped = (I.get("VAL") or "").startswith("skipped")
+    if val_skipped:
+        problems.append("readd_stale: the model lists a units object whose parent is not the model; Validator::validateModel "
+                        "(which dereferences that parent: SIGSEGV in validateUnits) was not run")
     for k in ("FIX", "VAL", "LINK", "CLEAN"):
-        if I.get(k) != mref.get(k):
-            problems.append("correspondence %s: impl=%s model=%s" % (k, (I.get(k) or "")[:300], (mref.get(k) or "")[:300]))
+        if k == "VAL" and val_skipped:
+            continue
+        if core(I.get(k) or "") != mref.get(k):
+            problems.append("correspondence %s: impl=%s model=%s" % (k, core(I.get(k) or "")[:300], (mref.get(k) or "")[:300]))
+    try:
+        own_impl = ownership_text(I["OPS"], parse_state(I["S0"]))
+    except Exception as e:
+        own_impl = "unreadable: %r" % (e,)
+    if own_impl != mfixed.get("OWN"):
+        problems.append("correspondence OWN (pre-history of units/ownership calls): impl=%s model=%s" % (own_impl[:300], (mfixed.get("OWN") or "")[:300]))
     matches_unfixed = hb and I.get("FIX") == munf.get("FIX") and I.get("VAL") == munf.get("VAL")
     try:
         s0 = parse_state(I["S0"])
         fr, _, fs = I["FIX"].partition(" ")
-        check_fix(s0, fr == "true", parse_state(fs), I["VAL"], problems)
+        check_fix(s0, fr == "true", parse_state(fs), mref.get("VAL") if val_skipped else I["VAL"], problems)
         lt = I["LINK"].split(" ", 3)
         check_link(s0, lt[0] == "true", lt[1] == "true", lt[2] == "true", parse_state(lt[3]), problems, std)
         check_clean(s0, parse_state(I["CLEAN"]), problems)
         check_dumps(I["D0"], I["DFIX"], I["DLINK"], I["DCLEAN"], problems)
     except Exception as e:     # a state the oracle cannot read is a failure of the machinery, reported as such
         problems.append("oracle could not evaluate the case: %r" % (e,))
-    return problems, hb, matches_unfixed
+    return problems, hb, matches_unfixed, mfixed.get("READD") == "1"
 
 
 def category(problems):
@@ -461,9 +506,9 @@ def shrink(ctx, drv, mdl, script, std, cat):
         impl, model = run_drivers(ctx, drv, mdl, cands, "shrink")
         hit = None
         for i, (a, b) in enumerate(zip(impl, model)):
-            if not a.startswith("S0 "):
+            if not a.startswith("P0 "):
                 continue
-            pr, _, _ = judge(a, b, std)
+            pr, _, _, _ = judge(a, b, std)
             if pr and set(category(pr)) & set(cat):
                 hit = i
                 break
@@ -518,7 +563,11 @@ def run(ctx):
     n_rand = 400 if quick else 19000
     for _ in range(n_rand):
         cases.append(G.random_case(random.Random(rng.random())))
-    ctx.log("cases: %d (structured space to length %d: %d, longer sequences %d, random %d)" % (len(cases), exh_len, n_exh, n_long, n_rand))
+    n_hist = 900 if quick else 12000
+    for _ in range(n_hist):
+        cases.append(G.history_case(random.Random(rng.random()), allow_readd=rng.random() < 0.15))
+    ctx.log("cases: %d (structured space to length %d: %d, longer sequences %d, random %d, ownership pre-histories %d)"
+            % (len(cases), exh_len, n_exh, n_long, n_rand, n_hist))
 
     scripts = [c[1] for c in cases]
     impl, model = run_drivers(ctx, drv, mdl, scripts, "main")
@@ -531,8 +580,8 @@ def run(ctx):
     n_unfixed_like = 0
     seen_known = False
     for i, ((label, script), a, b) in enumerate(zip(cases, impl, model)):
-        problems, hb, unfixed_like = judge(a, b, std)
-        if a.startswith("S0 "):
+        problems, hb, unfixed_like, readd = judge(a, b, std)
+        if a.startswith("P0 "):
             I = fields(a)
             try:
                 s0 = parse_state(I["S0"])
@@ -574,6 +623,10 @@ def run(ctx):
                 and ctx.known_finding(FINDING, "fixVariableInterfaces()/validator stop looking at a variable's equivalences once a public and a private need are known (case %s)" % label):
             seen_known = True
             continue
+        if readd and all(p.startswith(("link_true_post", "readd_stale")) for p in problems) and ctx.known_finding(
+                FINDING_READD, "a units object added twice to the same model and removed once stays listed without parent: linkUnits() true, hasUnlinkedUnits() true (case %s)" % label):
+            hist["readd_known_finding_cases"] = hist.get("readd_known_finding_cases", 0) + 1
+            continue
         nviol += 1
         if unfixed_like:
             n_unfixed_like += 1
@@ -584,7 +637,7 @@ def run(ctx):
             except Exception as e:
                 ctx.log("shrink failed: %r" % (e,))
             ia, mb = run_drivers(ctx, drv, mdl, [small], "final")
-            pr2, hb2, unf2 = judge(ia[0], mb[0], std)
+            pr2, hb2, unf2, _ = judge(ia[0], mb[0], std)
             note = ""
             if unf2 or unfixed_like:
                 note = " [the implementation behaves like the pinned tree's early-exit loop: defect repaired by fixes/C19-interface-early-exit.diff]"
@@ -599,8 +652,10 @@ def run(ctx):
                        "component) x every ordered sequence of <= %d distinct relative positions of the equivalent variables (same component, sibling, "
                        "parent, child, second child, grandchild, grandparent, uncle, parent-less, component without parent, component of another model) x "
                        "7 current interface strings = %d cases; plus %d sampled longer sequences and %d random models; units situation of every variable "
-                       "and seeded empty components/units are drawn per case. non-trivial = some variable has an equivalence, or linkUnits or clean "
-                       "changes the model; distinct by the dumped initial state" % (exh_len, n_exh, n_long, n_rand))
+                       "and seeded empty components/units are drawn per case; plus %d models whose units are first moved around by a pre-history of 1-8 "
+                       "public calls (addUnits incl. moves between models, removeUnits by index/name/object/equal-but-distinct object, removeAllUnits, "
+                       "takeUnits, the three replaceUnits, setUnits, destroying another model), compared call by call with the extracted ownership model. non-trivial = some variable has an equivalence, or linkUnits or clean "
+                       "changes the model; distinct by the dumped initial state" % (exh_len, n_exh, n_long, n_rand, n_hist))
     ctx.cov["samples"] = [cases[0][1][:400], cases[len(cases) // 2][1][:400], cases[-1][1][:400]]
     ctx.cov["input_distribution"] = hist
     ctx.cov["traces_validated_against_impl"] = len(cases)
@@ -622,5 +677,5 @@ def replay(ctx, path):
     for part in model[0].split("\tUNFIXED "):
         for k, v in fields(part).items():
             print("model %-6s %s" % (k, v[:1500]))
-    pr, hb, unf = judge(impl[0], model[0], standard_names())
+    pr, hb, unf, _ = judge(impl[0], model[0], standard_names())
     print("problems:", pr)
